@@ -582,5 +582,14 @@ C18_UNITS = [
     iounit("cancel_idle_read_tcp", chunks=[], buf=2, close=False, victims=["r"], transport="tcp", n=150),
     iounit("tcp_timeout_then_data", chunks=[2, 2], buf=4, close=True, read_timeout=2, pauses=[0, 3], transport="tcp", n=150),
     iounit("cancel_timed_read", chunks=[2], buf=2, close=False, victims=["r"], read_timeout=4, pauses=[2], n=200),
+    # a socket the cancelled coroutine does not own (datagram socket shared through an Arc): the cancel leaves the read
+    # time-out armed, it fails the next coroutine's recv early (F27, open): IoSharedCancel.tla has the counter-example for the
+    # code as it is and verifies a cancel that disarms; the `ioshared` scenario shows it on the real code
+    dict(name="ioshared_spec", tlc=[("spec/l3/IoSharedCancel.tla", "spec/l3/MCIoSharedCancel.cfg"), ("spec/l3/IoSharedCancel.tla", "spec/l3/MCIoSharedCancel_disarm.cfg")],
+         tlc_expect_error="NoOrphanEntry is violated|NoEarlyTimeout is violated"),
+    # (one execution shows it; the stale entry goes on to trip over the F15 races in the executions that follow, so the
+    # scenario process stops at the first finding)
+    dict(name="shared_cancel_then_recv", scenario="ioshared", params=dict(workers=8, short=5, long=50),
+         mv_extra=["--max-violations", "1"], quick=dict(explore=dict(n=5)), thorough=dict(explore=dict(n=5))),
 ]
 PROPS["C18"] = dict(assumptions=["virtual clock for the io timers; the fd is served by one selector"], units=C18_UNITS)
